@@ -48,6 +48,17 @@ Definition run_add (s : qstate) (ins : list N) : qstate * list N :=
   | _ => (s, [77777])
   end.
 
+(* kind 111: an add during which the heap refuses the allocation of the indirect table (ins as for 110) *)
+Definition run_add_af (s : qstate) (ins : list N) : qstate * list N :=
+  match ins with
+  | taddr :: n_in :: n_out :: rest =>
+      let '(bi, r1) := take_bufs3 (cnt n_in rest) rest in
+      let '(bo, _) := take_bufs3 (cnt n_out r1) r1 in
+      let '(o, s', evs) := add_af s bi bo taddr false in
+      (s', enc_outcome o ++ enc_qevs evs)
+  | _ => (s, [77777])
+  end.
+
 Definition run_pop (s : qstate) (ins : list N) : qstate * list N :=
   match ins with
   | token :: u_idx :: u_id :: u_len :: n_in :: n_out :: rest =>
@@ -69,6 +80,7 @@ Definition enc_visible (s : qstate) : list N :=
 Definition queue_step (s : qstate) (k : N) (ins : list N) : qstate * list N :=
   if k =? 101 then match ins with [v] => (qset_indices s v, []) | _ => (s, [77777]) end else
   if k =? 110 then run_add s ins else
+  if k =? 111 then run_add_af s ins else
   if k =? 120 then run_pop s ins else
   if k =? 130 then match ins with [ae; uf] => (s, [b2n (should_notify s ae uf)]) | _ => (s, [77777]) end else
   if k =? 131 then match ins with [ui] => (s, [b2n (can_pop s ui)]) | _ => (s, [77777]) end else
